@@ -35,7 +35,7 @@ ASSUMPTIONS = [
     'metadata for the dataframe/export checks is non-jagged',
 ]
 ANCHORS = ['Table.sum', 'Table.min', 'Table.max', 'Table.nonzero_counts', 'Table.reduce', 'Table.get_table_density', 'compute_counts_per_sample_stats', '_summarize_table', 'Table.to_dataframe', 'Table.metadata_to_dataframe', '_export_metadata']
-REQUIRED = ['reduce_callable_kinds_checked', 'sum_checked', 'minmax_checked', 'minmax_negative_only_vectors',
+REQUIRED = ['metadata_given_as_tuples', 'reduce_callable_kinds_checked', 'sum_checked', 'minmax_checked', 'minmax_negative_only_vectors',
             'nonzero_counts_checked', 'trailing_empty_vector_cases',
             'reduce_checked', 'stats_checked', 'summarize_default',
             'summarize_qualitative', 'summarize_observations',
@@ -370,17 +370,33 @@ def run_case(ctx, index):
                                                    D.tolist()))
             ctx.count('to_dataframe_checked')
         elif what == 'mddf':
+            tm = t
+            if r.random() < .3:
+                # sequences given as tuples are documented to be expanded
+                # into numbered columns like lists
+                import copy as _copy
+                s2 = spec.copy()
+                hit = False
+                for md2 in (s2.obs_md, s2.samp_md):
+                    for e in (md2 or []):
+                        for kk, vv in list(e.items()):
+                            if isinstance(vv, list):
+                                e[kk] = tuple(vv)
+                                hit = True
+                if hit:
+                    tm = gen.build(biom, s2, 'dense')
+                    ctx.count('metadata_given_as_tuples')
             for axis in ('observation', 'sample'):
                 md = spec.md(axis)
                 if md is None:
                     try:
-                        t.metadata_to_dataframe(axis)
+                        tm.metadata_to_dataframe(axis)
                     except KeyError:
                         pass
                     else:
                         fail('metadata_to_dataframe-nomd', 'no KeyError')
                     continue
-                df = t.metadata_to_dataframe(axis)
+                df = tm.metadata_to_dataframe(axis)
                 check_mddf(df, spec, axis, fail)
                 ctx.count('metadata_to_dataframe_checked')
     # ------------------------------------------------------------- CLI
